@@ -18,12 +18,20 @@ concurrently on threads: a run of a re-used object must be the run of a fresh ob
     every step body (`Step.invoke_step` wrapped from outside, i.e. while the step's `in` arguments are
     still in context) the harness records the deep value of the context and the set of SHARED objects
     (cached definition, config.vars, config.shortcuts; immutable atoms excepted) reachable from it by
-    id().  The same history of calls is executed by the Lean heap model (`heap.runExec` with `calls`:
-    `RunHeap.callsSched` turns calls on Pipeline objects into operations, `RunHeap.exec` runs them;
-    decorator inputs are bound by the model's formatting operation `fmtSetAt` from the definition's own
-    objects), whose `deepVal` and `foreignReach` after the corresponding operation must agree.
-    Monitors on the implementation alone: the reachable-shared set is empty at every observation; a
-    re-run equals the first run; the context of a run that is over never changes afterwards.
+    id().  The same history of calls is executed by the Lean heap model AT STEP GRANULARITY
+    (`heap.runSteps` with `calls`): the harness sends the STEPS (kind + configuration, `RunHeap.Instr`),
+    the model READS the operations each step performs from the state in which the step starts
+    (`RunHeap.opsOf`: append / add test truthiness, merge / default walk the current value, save_error
+    looks for runErrors), performs them (`RunHeap.exec`; an operation without effect RAISES and ends its
+    run) and returns both.  The operations must equal, one by one, the harness's own reading of the step
+    (Emit below), and `deepVal` / `foreignReach` / "the run is over" after the corresponding operation
+    must agree with the implementation.  A step that raises unswallowed (`fail`) ends the run on both
+    sides: the steps after it never run, the next run is unaffected.
+    Monitors on the implementation alone: no MUTABLE shared object is reachable from a context of a case
+    that has a step kind writing in place (objects immutable all the way down are not reported; a mutable
+    one held by a case that only rebinds keys is counted, as is what the Pipeline objects hold, e.g.
+    `shortcut['groups']`); a re-run equals the first run; the context of a run that is over never
+    changes afterwards.
 
 (b) HISTORY MONITOR (from the property text, no model involved).  Histories of 2-6 runs of 1-3
     pipelines (direct and through shortcuts, equal initial contexts) in one process with all caches
@@ -42,8 +50,10 @@ concurrently on threads: a run of a re-used object must be the run of a fresh ob
     (trace, outcome, final context); after every history the definition the loader cache returns for
     every (parent, name) request equals a fresh load of the file pypyr's search order prescribes.
 
-(c) THREADS.  2-3 runs on real threads, each with its own context, hand-off at the probe steps
-    (threading.Event scheduler of harness/impl_c13.py, no sleeps), several interleavings per pipeline
+(c) THREADS.  2-3 runs on real threads, each with its own context, hand-off at the probe steps AND INSIDE
+    steps: inside the formatting of a large mapping (`contextSetf` whose 5-12 values are `!py` expressions
+    calling vobs.tick) and inside a foreach (the probe step under a foreach decorator), still
+    deterministic (threading.Event scheduler of harness/impl_c13.py, no sleeps), several interleavings per pipeline
     set, cold and warm caches; with `via: object` the threads that run the same entry call run() on the
     SAME Pipeline object: every run must reproduce its solo trace / outcome / final context (solo =
     `pipelinerunner.run`), the definitions must stay deep-equal, the solo runs' contexts unchanged.
@@ -64,14 +74,18 @@ from .. import common
 from .. import impl_c12 as I
 from ..common import canon
 
-LEAN_MODULES = ['Props.C12']
-TRUSTED = ['harness/props/c12.py + harness/impl_c12.py (pipeline generator with its object-level reading of each step, '
-           'id()-graph walker, deep snapshots, monitors)',
+# Props.C11Heap: the object-level pype theorems (C11); listed here until harness/props/c11.py lists them
+LEAN_MODULES = ['Props.C12', 'Props.C11Heap']
+TRUSTED = ['harness/props/c12.py + harness/impl_c12.py (pipeline generator, id()-graph walker, deep snapshots, monitors; its '
+           'object-level reading of each step kind is compared, operation for operation, with RunHeap.opsOf of the model)',
            'harness/impl_c13.py (threading.Event hand-off scheduler)',
            'CPython object identity (id), copy.deepcopy, ruamel.yaml round-trip loader']
 ASSUMPTIONS = [
-    'one model operation = one effect of a step on objects; interleavings below step granularity (inside one step\'s '
-    'Python code, GIL switches) are not modelled; threads are switched at probe steps only',
+    'one model operation = one effect of a step on objects; a step reads the context once, when it starts; '
+    'interleavings at arbitrary bytecode boundaries (GIL switches) are not modelled; threads are switched at probe steps, '
+    'at every value of a large contextSetf mapping while it is formatted and at every iteration of a foreach probe',
+    'an operation that raises ends its run (no on_failure group in the generated pipelines); the context is then what '
+    'it was at the raise, with the failure recorded under runErrors',
     'atoms (None, bool, int, float, str, bytes, dates) are immutable: sharing them is not aliasing',
     'shared state = cached PipelineDefinition.pipeline graphs, config.vars, config.shortcuts; module-level state of '
     'logging and third-party libraries is not observed',
@@ -94,6 +108,9 @@ ASSUMPTIONS = [
 ]
 
 PARSER_ARGS_SIG = {'site': 'shortcut.parser_args', 'parser': 'pypyr.parser.list'}
+# step kinds that only (re)bind keys of the context object: no operation of theirs has another object as its target
+READ_ONLY_KINDS = {'set', 'setf', 'set_ff', 'contextcopy', 'py_alias', 'configvars', 'call', 'pype_parent', 'pype_child',
+                   'ticks', 'foreach_probe', 'fail'}
 
 
 # ---------------------------------------------------------------------------------------------
@@ -207,6 +224,8 @@ def gen_config(rng, pipe_names, force_shortcut=False):
             sc['args'] = {f'sa{j}': I.gen_val(rng, 2, rng.choice(['list', 'dict', 'atom'])) for j in range(rng.randint(1, 3))}
         if c > 0.5:
             sc['parser_args'] = [rng.choice(['a', 'b', 'k=v', 'x y']) for _ in range(rng.randint(1, 3))]
+        if rng.random() < 0.35:
+            sc['groups'] = ['steps']       # Pipeline.new_pipe_and_args keeps THIS list on the Pipeline object (read-only)
         cfg['shortcuts']['sc0'] = sc
     return cfg
 
@@ -300,7 +319,17 @@ DIRECTED.append(
     # pypyr.steps.call: the called group runs through the runner the Pipeline object holds
     {'name': 'call-groups', 'dict_in': {'acc': [], 'd': {'x': []}},
      'script': ['call', 'py_append', 'call', 'foreach_dict', 'call', 'append_in']})
-OBJECT_DIRECTED = (0, 2, 3, 5, 6, 8, 12, 15, 17, 18)     # the directed shapes that are also run on a re-used Pipeline object
+DIRECTED += [
+    # a step that raises and is not swallowed ends the run there: the later steps never run, the next run is unaffected
+    {'name': 'fail-midrun', 'dict_in': {'acc': [0]}, 'script': ['append_in', 'py_append', 'fail', 'py_append', 'set']},
+    {'name': 'fail-first', 'dict_in': {}, 'script': ['fail', 'set']},
+    # hand-off points inside the formatting of a large mapping and inside a foreach
+    {'name': 'ticks', 'dict_in': {'acc': [0]}, 'script': ['ticks', 'py_append', 'foreach_probe', 'ticks', 'append_in']},
+    # a shortcut whose `groups` list the Pipeline object holds by reference
+    {'name': 'shortcut-groups', 'script': ['py_append', 'append_in', 'set'],
+     'config': {'shortcuts': {'sc': {'pipeline_name': 'p0', 'groups': ['steps'], 'args': {'lst': [0]}}}}},
+]
+OBJECT_DIRECTED = (0, 2, 3, 5, 6, 8, 12, 15, 17, 18, 19, 21, 22)     # the directed shapes that are also run on a re-used Pipeline object
 
 
 def case_from(gen, entries, kind, order, probes, via='runner'):
@@ -357,10 +386,13 @@ def history_cases(env):
 def thread_cases(env):
     rng = env.rng
     sets = []
-    for j in (0, 1, 2, 3, 5, 8, 12, 14, 16, 18):
+    for j in (0, 1, 2, 3, 5, 8, 12, 14, 16, 18, 19, 21, 21, 22):
         d = DIRECTED[j]
         gen, entries = make_entries(rng, 1, directed=d)
-        sets.append((gen, entries, [0, 0], 'directed:' + d['name'], 'object' if j in (0, 2, 5, 12, 16, 18) else 'runner'))
+        # the hand-off shape twice: two threads, then three
+        three = j == 21 and bool(sets) and sets[-1][3] == 'directed:ticks'
+        sets.append((gen, entries, [0, 0, 0] if three else [0, 0], 'directed:' + d['name'],
+                     'object' if j in (0, 2, 5, 12, 16, 18, 22) else 'runner'))
     for _ in range(env.n(8, 150)):
         ne = rng.randint(1, 3)
         gen, entries = make_entries(rng, ne)
@@ -404,10 +436,10 @@ def check_alias(env, res, sb, case, tag='replay'):
     for k, ei in enumerate(case['order']):
         entry = case['entries'][ei]
         # the model's history of calls: a re-used object is the same object number, pipelinerunner.run a new one
-        call, nops, pts = I.instantiate(entry['prog'], k + 1, shared, obj=ei + 1 if via == 'object' else 1000 + k)
+        call, ops, pts = I.instantiate(entry['prog'], k + 1, shared, obj=ei + 1 if via == 'object' else 1000 + k)
         base = len(flat)
         calls.append(call)
-        flat += [[k + 1, o] for o in call['pre']] + [[k + 1 if t is None else t, o] for t, o in call['steps']]
+        flat += ops
         points.append([(base + i, r) for i, r in pts])
         with I.StepObserver(shared) as so:
             hooked = so.active
@@ -415,10 +447,20 @@ def check_alias(env, res, sb, case, tag='replay'):
                                   args_in=entry['args_in'], **run_kwargs(case, ei))
             if ctx is not None:
                 so.record(ctx, '<final>')
+            elif so.first_ctx is not None:
+                # a run that ended with an exception hands no context back: the Context object it worked on
+                so.record(so.first_ctx, '<final>')
         impl_runs.append({'outcome': outcome, 'events': so.events})
         found += check_shared_unchanged(sb, names, baseline, cfg0, f'after run {k + 1}')
         found += fin.check(f'after run {k + 1}')
         fin.add(f'run {k + 1}', sb.last_live)
+    # what the re-used Pipeline objects hold by reference (`shortcut['groups']`: the configuration's own list): a
+    # slot of a Pipeline object is no operation's target (PipeObj.held, `held_reference_reads_same`); that the
+    # configuration did not change is judged by the snapshots above
+    for pobj in sb.objs.values():
+        names = list(getattr(type(pobj), '__slots__', ())) + list(getattr(pobj, '__dict__', {}))
+        held = [i for i in I.reach([getattr(pobj, a, None) for a in names]) if i in shared.ref_of]
+        res.count('reuse:shared-object-held-by-a-Pipeline-object (read-only, not reported)', len(held))
     res.case(case)
     res.count('alias:' + tag)
     res.count('alias:via-' + via)
@@ -428,11 +470,21 @@ def check_alias(env, res, sb, case, tag='replay'):
     for kd in case.get('kinds', []):
         res.count('step:' + kd)
     # ---- monitors on the implementation alone
+    # A shared object a context holds BY REFERENCE: immutable all the way down (atom-only tuples, frozensets) is
+    # harmless and not reported; a mutable one is reported when some step kind of this case writes in place
+    # (the object could be the target); held by a case that only rebinds keys it is counted (held, never
+    # written - `defs_unchanged_shared_readonly`); whether anything shared actually CHANGED is judged by the
+    # deep snapshots after every run in any case.
+    writers = [kd for kd in case.get('kinds', []) if kd not in READ_ONLY_KINDS]
     for k, run in enumerate(impl_runs):
         for j, ev in enumerate(run['events']):
-            if ev['foreign']:
+            res.count('alias:shared-immutable-object-held (not reported)', len(ev.get('frozen', ())))
+            if ev['labels'] and not writers:
+                res.count('alias:shared-mutable-object-held-never-written (no in-place step kind in the case)')
+            elif ev['labels']:
                 found.append((f"run {k + 1}, after step #{j} ({ev['step']}): the context reaches shared object(s) "
-                              f"{ev['labels'][:3]} by reference", signature_for_labels(ev['labels'], 'alias')))
+                              f"{ev['labels'][:3]} by reference, and the case has step kinds that write in place "
+                              f"({sorted(set(writers))[:4]})", signature_for_labels(ev['labels'], 'alias')))
                 break
     first = {}
     for k, ei in enumerate(case['order']):
@@ -455,22 +507,33 @@ def check_alias(env, res, sb, case, tag='replay'):
                       impl={'runs': [{'outcome': r['outcome'], 'final': r['events'][-1]['ctx'] if r['events'] else None,
                                       'foreign': [e['labels'] for e in r['events'] if e['labels']][:2]} for r in impl_runs]})
     # ---- model
-    model = env.driver.ask('heap.runExec', defs=shared.defs, cfg=shared.cfg, calls=calls)
+    # the model is given the STEPS (kind + configuration); it reads the operations itself (`RunHeap.opsOf`)
+    model = env.driver.ask('heap.runSteps', defs=shared.defs, cfg=shared.cfg, calls=calls)
     problems = []
-    if len(model['steps']) != len(flat):
-        raise common.Infra('the model turned the calls into a different number of operations')
-    if not model['fixed']:
-        problems.append('the generated schedule uses a pre-repair operation')
+    res.count('alias:step-level-units', len(model['nops']))
+    res.count('alias:operations-read', len(model['ops']))
+    if canon(model['ops']) != canon(flat):
+        # the object-level reading of a step kind in this harness and in lean/PypyrModel/Heap.lean differ
+        at = next((i for i, (a, b) in enumerate(zip(model['ops'], flat)) if canon(a) != canon(b)), min(len(flat), len(model['ops'])))
+        res.mismatch(case, {'reading': model['ops'][at:at + 2]}, {'reading': flat[at:at + 2]},
+                     note=f'the model reads other operations from the steps than the harness does, from operation {at}')
+        return impl_runs, model
+    if not model['plain']:
+        problems.append('definitions / configuration hold an opaque object: outside the domain of the theorems')
     if not model['sharedSame']:
-        problems.append(f"model: shared arenas changed at operation {model['sharedSameAt']}")
-    na = [i for i, st in enumerate(model['steps']) if not st['applied']]
+        problems.append('model: shared arenas changed')
+    na = [i for i, st in enumerate(model['steps']) if not st['applied'] and flat[i][1]['o'] != 'fail']
     if na:
         problems.append(f'model: operation {na[0]} {flat[na[0]]} does not apply (the code would raise / do nothing)')
     for k, run in enumerate(impl_runs):
         pts = points[k]
-        if run['outcome'] != 'ok':
-            problems.append(f"run {k + 1}: implementation outcome {run['outcome']}, the model has no failing step")
+        fails = bool(case['entries'][case['order'][k]].get('fails'))
+        mdead = bool(pts and model['steps'][pts[-1][0]]['dead'])
+        if (run['outcome'] != 'ok') != fails or mdead != fails:
+            problems.append(f"run {k + 1}: implementation outcome {run['outcome']}, the model's run ends "
+                            + ('with an exception' if mdead else 'normally'))
             continue
+        res.count('alias:run-ended-by-an-exception', 1 if fails else 0)
         evs = run['events']
         if not hooked:
             pts, evs = pts[-1:], evs[-1:]
@@ -1010,11 +1073,13 @@ def _worker(args):
 def run(env, res):
     res.rule = ('every stream starts runs through pipelinerunner.run or (via=object, ~40%) on one Pipeline object per entry '
                 'that is run again with a new Context; (a) generated pipelines of real steps (19 directed shapes, then '
-                'random: 2-6 steps from 28 step kinds, containers EMPTY with p=0.22 at every level, foreach items / onError / '
+                'random: 2-6 steps from 31 step kinds (incl. hand-off points inside formatting / foreach, an unswallowed failure), containers EMPTY with p=0.22 at every level, foreach items / onError / '
                 'retry inputs that are nested containers changed in place through i / runErrors, random config.vars / '
                 'shortcut with args and/or parser_args / list parser / dict_in), 1-3 runs, every step observation compared '
                 'with the Lean heap model (calls on Pipeline objects -> operations; formatting op on definition objects): '
-                'context deep value + shared objects reachable by id(); (b) histories of 2-6 runs over 1-3 such pipelines, '
+                'context deep value + shared objects reachable by id(); the model is sent the STEPS and reads the operations '
+                'itself (opsOf), which must equal the harness reading operation by operation; runs that raise mid-way; '
+                '(b) histories of 2-6 runs over 1-3 such pipelines, '
                 'deep snapshots of every cached definition and of config after every run, run k vs run 1, contexts of '
                 'finished runs unchanged; (b2) 2-4 root pipelines in different directories pyping children by relative '
                 'names with sub-directories, plus signs and dot-dot, child files next to the parent / in cwd / in '
